@@ -17,7 +17,7 @@ def config(T):
         "C14": dict(pkg="c14", tests=[T("TestAdvertised", 600, 24000, sq=4, st=16)]),
         "C15": dict(pkg="c15", tests=[T("TestPinned"), T("TestDocuments", 12000, 600000, sq=4, st=16), T("TestBombs", 200, 2000, sq=2, st=4),
                                       T("TestEnvelopes", 600, 20000, sq=2, st=8, race=True), T("TestHTTP", 800, 20000, sq=2, st=4),
-                                      T("TestPanicContained", 150, 3000, sq=1, st=4, race=True), T("TestCancellation", 200, 4000, sq=1, st=1)]),
+                                      T("TestPanicContained", 150, 3000, sq=1, st=4, race=True), T("TestCancellation", 200, 4000, sq=1, st=1), T("TestGatewayCancellation", 150, 3000, sq=1, st=1)]),
         "C16": dict(pkg="c16", tests=[T("TestDirect", 4000, 120000, sq=4, st=12), T("TestSocket", 600, 12000, sq=4, st=8, race=True)]),
         "C17": dict(pkg="c17", tests=[T("TestPinned"), T("TestLifecycle", 640, 24000, sq=8, st=16, race=True)]),
         "C18": dict(pkg="c18", tests=[T("TestArgs", 8000, 400000, sq=4, st=16), T("TestArgsNegative", 4000, 100000, sq=2, st=8)]),
